@@ -442,6 +442,29 @@ fn kernel_part(ctx: &Ctx, thorough: bool, samples: &Samples) -> (u64, u64, Json)
                         }
                     }
                 }
+                // deep products: more than one depth block (1024 for 8-bit operands), so every
+                // output tile is visited again with beta = 1 and the zero-point correction of
+                // each depth block must be added separately
+                if m == 5 || m == 65 {
+                    for &n in &[3usize, 130] {
+                        for &k in &[1025usize, 2050] {
+                            for (az, bz) in [(Zp::Ramp(0), Zp::None), (Zp::None, Zp::Ramp(-128)), (Zp::Ramp(0), Zp::Ramp(-128)), (Zp::None, Zp::None)] {
+                                for (a, b) in [(Fill::Const(hi_u), Fill::Const(lo_i)), (Fill::Checker(lo_u, hi_u), Fill::Checker(hi_i, lo_i))] {
+                                    for variant in 0..4 {
+                                        let c = Case {
+                                            kernel: kernel.clone(), m, k, n, a, b, az, bz,
+                                            b_col_major: variant == 1,
+                                            a_packed: variant == 2,
+                                            b_packed: variant == 2 || variant == 3,
+                                            entry: if variant % 2 == 0 { "gemm" } else { "gemm_uninit" },
+                                        };
+                                        check(ctx, exec, &c, verdict, rname, &mut t);
+                                    }
+                                }
+                            }
+                        }
+                    }
+                }
             } else {
                 // box B: every zero-point combination x extreme fills x every shape x layouts/prepacking
                 let az = az_all[idx];
